@@ -18,6 +18,7 @@ import (
 	"bytes"
 	"errors"
 	"fmt"
+	"math/big"
 	"strconv"
 	"strings"
 	"unicode/utf16"
@@ -42,8 +43,13 @@ func NewMycatPartitionModShard(shardNum int) *MycatPartitionModShard {
 
 // FindForKey return result of calculated key
 func (m *MycatPartitionModShard) FindForKey(key interface{}) (int, error) {
-	h := hack.Abs(NumValue(key))
-	return int(h % int64(m.ShardNum)), nil
+	// Mycat: new BigInteger(columnValue).abs().mod(BigInteger.valueOf(count))
+	n, ok := new(big.Int).SetString(GetString(key), 10)
+	if !ok {
+		panic(NewKeyError("invalid num format %v", key))
+	}
+	n.Abs(n)
+	return int(n.Mod(n, big.NewInt(int64(m.ShardNum))).Int64()), nil
 }
 
 const (
